@@ -634,7 +634,7 @@ func (u *Unit) recvFrom(fr *Frame, st *State, ch Val, elem types.Type, where str
 			u.setCancelled(st, u.termOf(s.Aux), TTrue)
 		}
 		u.event(fr, st, "recv ctx.Done", map[string]Val{"ctx": s.Aux}, where)
-	case strings.HasPrefix(origin, "after"):
+	case strings.HasPrefix(origin, "after"), origin == "field:Timer.C":
 		val = u.freshVal(elem, "tick", st.pc)
 		okT = TTrue
 		u.event(fr, st, "recv time.After", map[string]Val{"d": s.Aux}, where)
@@ -738,7 +738,7 @@ func (u *Unit) execSelect(fr *Frame, st *State, x *ssa.Select, where string) {
 			continue
 		}
 		if cs, ok := u.get(fr, s.Chan).(*Scalar); ok {
-			if strings.HasPrefix(cs.Origin, "after") {
+			if strings.HasPrefix(cs.Origin, "after") || cs.Origin == "field:Timer.C" {
 				hasAfter = true
 			}
 			if strings.HasPrefix(cs.Origin, "ticker") || cs.Origin == "field:Ticker.C" {
